@@ -85,13 +85,20 @@ def cmd_run(ns):
 
     # ---- violations: believed only if the replay reproduces
     confirmed, unconfirmed = [], []
-    seen_classes = set()
+    by_class = {}
     for v in total["violations"]:
-        if v["class"] in seen_classes:
-            continue
-        seen_classes.add(v["class"])
-        ok, output = verify_replay(v["replay"])
-        (confirmed if ok else unconfirmed).append((v, output))
+        by_class.setdefault(v["class"], []).append(v)
+    for records in by_class.values():
+        # one reproducing record per class is reported; up to three are tried
+        failed = None
+        for v in records[:3]:
+            ok, output = verify_replay(v["replay"])
+            if ok:
+                confirmed.append((v, output))
+                break
+            failed = failed or (v, output)
+        else:
+            unconfirmed.append(failed)
     for v, output in unconfirmed:
         errors.append(
             f"violation {v['class']} of run {v['run']} did not reproduce "
@@ -115,6 +122,8 @@ def cmd_run(ns):
             errors.append(f"core probes never hit: {missing}")
     total["seam_unreached"] = unreached
     # a search in which (almost) nothing was judged did not decide anything
+    if not confirmed and not errors and total["runs"] == 0:
+        errors.append("no run completed within the budget")
     if not confirmed and not errors and total["runs"] >= 50:
         if total["nontrivial"] * 10 < total["runs"]:
             errors.append(
@@ -448,4 +457,16 @@ def main(argv=None):
 
 
 if __name__ == "__main__":
-    sys.exit(main())
+    os.environ.setdefault("VERIF_CHECK_ID", str(os.getpid()))
+    try:
+        code = main()
+    except SystemExit:
+        raise
+    except BaseException as exc:  # noqa: BLE001
+        # never exit 1 (the code of a violation) for a failure of the harness
+        import traceback
+
+        traceback.print_exc()
+        print(f"HARNESS-ERROR {type(exc).__name__}: {exc}")
+        code = 2
+    sys.exit(code)
